@@ -4,3 +4,4 @@ pub mod mterm;
 pub mod surface;
 pub mod tok;
 pub mod subst;
+pub mod listing;
